@@ -309,6 +309,11 @@ pub fn password_neighbourhood(pw: &str) -> Vec<String> {
     let alphabet: Vec<char> = "abcdefghijklmnopqrstuvwxyz0123456789 -_!".chars().collect();
     let chars: Vec<char> = pw.chars().collect();
     let mut out = vec![String::new(), pw.to_uppercase(), format!("{} ", pw), format!(" {}", pw), "x".repeat(1024), format!("{}\0", pw)];
+    // white space and control characters around the password (what a prompt or key file adds)
+    for ws in ["\n", "\r", "\r\n", "\t", "\u{b}", "\u{c}", "\u{a0}", "\u{feff}", "\n\n"] {
+        out.push(format!("{}{}", pw, ws));
+        out.push(format!("{}{}", ws, pw));
+    }
     for i in 0..chars.len() {
         // deletion
         let mut c = chars.clone();
